@@ -30,7 +30,8 @@ def ops_for(prop, shape, spec):
         ops = alpha.cost_ops(shape)
     if spec.get("spread") is not None and prop in ("C02", "C07"):
         ops = ops + alpha.custom_price_ops(shape)
-    if isinstance(spec.get("spread"), list):
+    if isinstance(spec.get("spread"), list) or spec.get("build") == "top_down":
+        # (top_down: the shared security is created on first use - it cannot be addressed before)
         ops = [o for o in ops if o[0] not in ("sectransact",)]
     return ops
 
@@ -54,6 +55,9 @@ def configs(prop, tier, seed):
         plan.append(("T1", VARIANTS[(seed + 2) % 6], 3, "dormant"))
         plan.append(("T1", VARIANTS[(seed + 3) % 6], 2, "seeded"))
         plan.append(("T1", VARIANTS[(seed + 1) % 6], 2, "bigbook"))
+        plan.append(("T2", VARIANTS[(seed + 1) % 6], 2, "topdown"))
+        if prop == "C03":
+            plan.append(("MC", VARIANTS[(seed + 1) % 2], 2, "exact"))
     else:
         plan = []
         for v in VARIANTS:
@@ -77,6 +81,11 @@ def configs(prop, tier, seed):
         plan.append(("T2", VARIANTS[0], 2, "seeded"))
         for v in VARIANTS[:3]:
             plan.append(("T1", v, 3, "bigbook"))
+        plan.append(("T2", VARIANTS[0], 3, "topdown"))
+        plan.append(("T2", VARIANTS[1], 3, "topdown"))
+        if prop == "C03":
+            plan.append(("MC", VARIANTS[0], 3, "exact"))
+            plan.append(("MC", VARIANTS[1], 3, "exact"))
         if prop in ("C02", "C07"):
             for v in VARIANTS[:4]:
                 plan.append(("F1", v, 3, "exact"))
@@ -105,6 +114,9 @@ def configs(prop, tier, seed):
             spec["alpha"] = "exact"
             spec["prices"] = {"a": [4.0, 0.0, 0.0, 2.0], "b": [1.0, 2.0, 0.0, 1.0]}
             spec["preops"] = [["transact", [], "a", 3.0], ["next"]]
+        if al == "topdown":
+            spec["alpha"] = "exact"
+            spec["build"] = "top_down"
         if al == "bigbook":
             # a book of a million: the alphabet's flows, fees and trades are a few millionths of it
             spec["alpha"] = "exact"
